@@ -635,23 +635,34 @@ def gen_match_source(rng):
         if k == 2: return "(%s) * %s" % (expr(vars_, d + 1), rng.choice(lits))
         if k == 3: return "(if (%s > %s) { %s } else { %s })" % (atom(vars_), rng.choice(lits), expr(vars_, d + 1), expr(vars_, d + 1))
         return atom(vars_)
+    # one match in four gets an EXTRA arm at a random place: a pattern that is already there (of two arms with the same pattern
+    # the first is taken on both backends: the repaired C01/M3) or a general arm before more specific ones (the arms behind it
+    # are dead: the repaired C02/M1)
+    def extra(arms, pats):
+        if rng.chance(1, 4):
+            arms.insert(rng.below(len(arms) + 1), "%s => %s" % (rng.choice(pats), expr_of[0]()))
+        return arms
+    expr_of = [None]
     def int_match(scrut, vars_):
         n = rng.range(1, 3)
         arms = ["%d => %s" % (i, expr(vars_)) for i in range(n)]
         arms.append("_ => %s" % expr(vars_))
-        return "match %s { %s }" % (scrut, ", ".join(arms))
+        expr_of[0] = lambda: expr(vars_)
+        return "match %s { %s }" % (scrut, ", ".join(extra(arms, ["0", "1", "_"])))
     def sum_match(scrut, vars_):
         arms = ["Up => %s" % expr(vars_), "Down => %s" % expr(vars_)]
         if rng.chance(1, 2):
             arms.append("Mid(r) => %s" % expr(vars_ + ["r"]))
         else:
             arms.append("_ => %s" % expr(vars_))
-        return "match %s { %s }" % (scrut, ", ".join(arms))
+        expr_of[0] = lambda: expr(vars_)
+        return "match %s { %s }" % (scrut, ", ".join(extra(arms, ["Up", "Down", "Mid(_)", "_"])))
     def tup_match(p, q, vars_):
         arms = ["(0, 0) => %s" % expr(vars_), "(0, 1) => %s" % expr(vars_)]
         if rng.chance(1, 2): arms.append("(1, _) => %s" % expr(vars_))
         arms.append("_ => %s" % expr(vars_))
-        return "match (%s, %s) { %s }" % (p, q, ", ".join(arms))
+        expr_of[0] = lambda: expr(vars_)
+        return "match (%s, %s) { %s }" % (p, q, ", ".join(extra(arms, ["(0, 0)", "(0, _)", "(_, 1)", "(_, _)", "_"])))
     lines = ["type Dir = Up | Down | Mid(float)", "fn cnt(x){ self + x }", "fn acc(){ self * 2.0 + 1.0 }"]
     nf = rng.range(1, 2)
     calls = []
